@@ -171,26 +171,31 @@ def covMat {m : Nat} (q : Vec K m) (n : K) : Mat K m m :=
 def extracted {m : Nat} (cov : Mat K m m) (n32 : K) : Mat K (m - 1) (m - 1) :=
   Mat.ofFn fun i j => cov.get ⟨i.val, by omega⟩ ⟨j.val, by omega⟩ + (if i = j then 1 else 0) / n32
 
-/-- one weight matrix of the `inverse_*_covariance` modes; `Ginv` is numpy's inverse of `extracted`.
+/-- `(inv + inv.T) / 2`: the symmetrisation applied right after `np.linalg.inv` -/
+def symmetrise {n : Nat} (G : Mat K n n) : Mat K n n :=
+  Mat.ofFn fun i j => (G.get i j + G.get j i) / (1 + 1)
+
+/-- one weight matrix of the `inverse_*_covariance` modes; `Ginv` is numpy's inverse of `extracted`, symmetrised.
 `row == 2`: entry `[0,0]` is filled; otherwise `weight_matrix[: row - 1, : col - 1] = inv`; last row and
 column stay zero in both branches. -/
 def invCovWeight {m : Nat} (Ginv : Mat K (m - 1) (m - 1)) : Mat K m m :=
+  let S := symmetrise Ginv
   if hm : m = 2 then
     Mat.ofFn fun i j =>
-      if h : i.val = 0 ∧ j.val = 0 then Ginv.get ⟨0, by omega⟩ ⟨0, by omega⟩ else 0
+      if h : i.val = 0 ∧ j.val = 0 then S.get ⟨0, by omega⟩ ⟨0, by omega⟩ else 0
   else
     Mat.ofFn fun i j =>
-      if h : i.val < m - 1 ∧ j.val < m - 1 then Ginv.get ⟨i.val, h.1⟩ ⟨j.val, h.2⟩ else 0
+      if h : i.val < m - 1 ∧ j.val < m - 1 then S.get ⟨i.val, h.1⟩ ⟨j.val, h.2⟩ else 0
 
 def invCovWeights {m : Nat} (Ginvs : List (Mat K (m - 1) (m - 1))) : List (Mat K m m) :=
   Ginvs.map invCovWeight
 
-/-- `_set_weights_by_mode` of the squared-error losses: `none` = the setter is not called (`identity` is
-`pass`, the field stays as it is), `some w` = `set_weight_matrices(w)` is called. -/
+/-- `_set_weights_by_mode` of the squared-error losses: `some w` = `set_weight_matrices(w)` is called
+(`identity` calls it with `None`); `none` = no setter call (no accepted mode string does that any more). -/
 def weightsByMode {m : Nat} (opt : Opt K m) (Ginvs : List (Mat K (m - 1) (m - 1))) :
     Option (Option (List (Mat K m m))) :=
   match opt.mode with
-  | .identity => none
+  | .identity => some none
   | .custom => some opt.weights
   | .invSample | .invUnbiased => some (some (invCovWeights Ginvs))
 
@@ -313,8 +318,9 @@ def calcExtWeights (st : WreState K) (lens : List Nat) : WreState K :=
   | some w => { st with extWeights := some ((w.zip lens).flatMap fun (a, n) => List.replicate n a) }
 
 /-- `set_from_standard_qtomography_option_data` on either relative-entropy loss. `optWeights = none` is mode
-`identity` (`pass`); `some w` is mode `custom`: `set_weights(option.weights)`, and the fast class's
-`set_weights` rebuilds `_extend_weights` (the data `q` have been set before, so `prob_dists_q is not None`). -/
+`identity`: `set_weights(None)`; `some w` is mode `custom`: `set_weights(option.weights)`. The fast class's
+`set_weights` then calls `_calc_extend_weights` (the data `q` have been set before), which rebuilds
+`_extend_weights` when there are weights and leaves the (then unused) old vector otherwise. -/
 def configureWre (st : WreState K) (optWeights : Option (List K)) (lens : List Nat) (fast gradRequired : Bool) :
     WreState K :=
   let st2 :=
@@ -322,11 +328,8 @@ def configureWre (st : WreState K) (optWeights : Option (List K)) (lens : List N
       let st1 := calcExtWeights st lens
       if gradRequired then calcExtWeights st1 lens else st1
     else st
-  match optWeights with
-  | none => st2
-  | some w =>
-    let st3 := { st2 with weights := some w }
-    if fast then calcExtWeights st3 lens else st3
+  let st3 := { st2 with weights := optWeights }
+  if fast then calcExtWeights st3 lens else st3
 
 /-- `StandardQTomographyBasedWeightedRelativeEntropy.value`: `Σ extW_i · vector_i` (`weights is not None`)
 or `Σ vector_i`; numpy multiplies elementwise, so lengths must agree (else ValueError). -/
